@@ -396,4 +396,23 @@ func zzH_C10_re() {
 		}
 	}
 	zzv.Assert("fields-end-with-delimiter", shape)
+	// a field range as --accept-nth / --with-nth templates print it: the fields as they are, minus the
+	// delimiter that ends the last selected field
+	if len(tokens) == 0 {
+		return
+	}
+	b := zzv.Choose(1, len(tokens))
+	e := zzv.Choose(b, len(tokens))
+	got := StripLastDelimiter(JoinTokens(Transform(tokens, []Range{{b, e}})), delim)
+	var want []rune
+	for i := b - 1; i < e; i++ {
+		want = append(want, zzTokRunes(tokens[i])...)
+	}
+	plus := len(zzv.CfgStr("regex")) > 4 // "[:,]+": a run of delimiter characters is one delimiter
+	stripped := 0
+	for len(want) > 0 && (want[len(want)-1] == ':' || want[len(want)-1] == ',') && (plus || stripped == 0) {
+		want = want[:len(want)-1]
+		stripped++
+	}
+	zzv.Assert("range-printed-without-its-last-delimiter", got == string(want))
 }
